@@ -385,7 +385,7 @@ def _run_requests(ctx: Ctx, cases, segs, servers, conns: Conns, obs: list) -> No
         if case["ptr"] == "mismatch":
             # such bytes can take the whole server process down: only ever sent to a server in a child process
             plan = [("Ve", "subprocess", j) for j in range(1 if nfaults >= 2 else 4)]
-        elif nfaults <= 1 and (not isolated or proc_shared or not quick):
+        elif nfaults <= 1 and (not isolated or proc_shared):
             plan.append(("Ve", "subprocess", 6))        # the stdio entry point (serve_stdio) as shipped
         if case["pv"] != "ok":
             plan.append(("ve", "pipe", 4))
@@ -395,7 +395,7 @@ def _run_requests(ctx: Ctx, cases, segs, servers, conns: Conns, obs: list) -> No
             plan += [("Ve", "pipe", 8 + j) for j in range(3 if nfaults <= 1 else 1)] + [("Ve", "unix", 11)]
         if case["ptr"] == "mismatch":
             plan = [(wn_, "subprocess", v_) for wn_, _tr, v_ in plan]
-            if nfaults >= 2 and not proc_shared and ci % (5 if quick else 3):
+            if not proc_shared and (nfaults >= 3 or (nfaults == 2 and ci % (5 if quick else 3))):
                 plan = []           # (each of these costs a child process of its own)
         if nfaults >= 3 and isolated and ci % 3:
             skipped_far += 1        # the many far classes that need a connection of their own: every third is executed
